@@ -11,6 +11,9 @@ package main
 //   router  a router assembled as main.go does (Use order from main.go; common routes, writer routes through
 //           plugin.RegisterRoutes with a fake service registry, reader routes with a fake IDBRegistry), every
 //           route × method × header class × Accept-Encoding × Origin, vs Router.serve over Gen.Routes.routes
+//   binary  the real `main` built from the repository (MODE=reader), raw HTTP to every common+reader route
+//   portenv, config   the configuration path (c20config.go): the real portEnv through a build overlay; the real binary
+//           started once per configuration (config file × environment), incl. other MODEs and every listener it opens
 // Oracle (no model involved): a request whose Authorization header is not "Basic " + a string that Go's
 // StdEncoding decodes WITHOUT error to login:pass must get 401/400, must not reach a handler and must leave the
 // back-end call log empty; one that is must reach a handler.
@@ -897,20 +900,13 @@ func c20Router_(r *h.Result, rng *h.Rng, tier string) error {
 // auth middleware and logs the URL, which carries a unique query parameter per request.
 func c20Binary(r *h.Result, rng *h.Rng, tier string) error {
 	r.Stream("binary: the real `main` built from the repository and run with MODE=reader, QRYN_LOGIN/QRYN_PASSWORD, CORS on: raw HTTP requests to every common+reader route × method × 14 header classes × Accept-Encoding × Origin (+ writer paths, unregistered methods); passed-auth read from the server's access log; vs Router.serve")
-	repoDir := os.Getenv("VERIF_REPO")
-	if repoDir == "" {
-		repoDir = "/repo"
-	}
-	tmp, err := os.MkdirTemp("", "c20bin")
+	bin, err := c20MainBinary(false)
 	if err != nil {
 		return err
 	}
-	defer os.RemoveAll(tmp)
-	bin := filepath.Join(tmp, "qryn")
-	build := exec.Command("go", "build", "-o", bin, ".")
-	build.Dir = repoDir
-	if out, err := build.CombinedOutput(); err != nil {
-		return fmt.Errorf("building package main of %s: %v\n%s", repoDir, err, out)
+	tmp, err := os.MkdirTemp(c20BinDir, "binary")
+	if err != nil {
+		return err
 	}
 	l, err := net.Listen("tcp", "127.0.0.1:0")
 	if err != nil {
@@ -1159,6 +1155,8 @@ func c20Replay(r *h.Result, path string) error {
 	}
 	json.Unmarshal(f.Replay, &probe)
 	switch probe.Stream {
+	case "config", "portenv":
+		return c20ConfigReplay(r, f.Replay)
 	case "auth":
 		var a struct {
 			Login, Pass, Header string
@@ -1199,6 +1197,8 @@ func c20(r *h.Result, rng *h.Rng, tier string, replay string) error {
 	r.Rule = "b64: 1/6 valid encodings, 1/6 mutated valid encodings (pad/CR/LF/junk inserted, deleted, appended), alphabet soup with '=' and CR/LF, raw bytes, non-canonical trailing bits; non-trivial = error WITH a non-empty partial result. " +
 		"auth: 34 header classes × 5 configurations (passwords with ':', empty, non-ASCII; padded and unpadded encodings), then near-miss headers (one-edit credentials correctly encoded; the right header with 1–3 byte edits; random payloads); non-trivial = starts with \"Basic \"; distinct by (config, header). " +
 		"mw: 0–5 ResponseWriter calls (WriteHeader from {200,201,204,301,400,401,404,500}, Write of 0–6 bytes, header set/del) under a random sub-chain/order of gzip, CORS, logging and 7 Accept-Encoding values; non-trivial = gzip writer active. " +
+		"portenv: 64 fixed cases (every subset of the four variables × file both/none/user/password), then every source independently absent (2/5) / empty (1/5) / set (2/5), 60 % with arbitrary bytes (no NUL; no ':' in logins), decoy variables 15 % each; non-trivial = login and password supplied by different kinds of sources. " +
+		"config: 9 fixed configurations (file username + QRYN_PASSWORD, QRYN_LOGIN + CLOKI_PASSWORD, file only, file password + CLOKI_LOGIN, CLOKI over QRYN, set-but-empty variable, login only, nothing, MODE=gateway) then random ones as in portenv with identifier-like values, 15 % in a MODE other than reader; one start of the real binary each; non-trivial route case = a login and a password were supplied. " +
 		"router: exhaustive over the walked route table — every route × registered method × 14 header classes × Accept-Encoding {none,gzip} × Origin {none,set}, plus unregistered methods, sibling paths and catch-all probes, for 4 assemblies (auth+CORS, auth, auth+CORS+view-shaped routes, no auth)"
 	c20Setup()
 	if replay != "" {
@@ -1220,7 +1220,18 @@ func c20(r *h.Result, rng *h.Rng, tier string, replay string) error {
 	if err := c20Router_(r, rng.Fork(), tier); err != nil {
 		return err
 	}
+	defer c20BinCleanup()
 	if err := c20Binary(r, rng.Fork(), tier); err != nil {
+		return err
+	}
+	nPortEnv, nConf := 1500, 2
+	if tier != "quick" {
+		nPortEnv, nConf = 30000, 56
+	}
+	if err := c20PortEnv(r, rng.Fork(), nPortEnv); err != nil {
+		return err
+	}
+	if err := c20Config(r, rng.Fork(), nConf); err != nil {
 		return err
 	}
 	r.Notes = append(r.Notes,
